@@ -315,6 +315,9 @@ func runProp(p *Prop) {
 
 	for _, sc := range p.Scopes(r.Thorough()) {
 		sc := sc
+		if only := os.Getenv("VERIF_ONLY_SCOPE"); only != "" && os.Getenv("VERIF_DEV") == "1" && !strings.HasPrefix(sc.Name, only) {
+			continue // development aid (never set by bin/check): run one scope only
+		}
 		if sc.G == nil {
 			sc.G = sc.GS.Build()
 		}
